@@ -1318,8 +1318,19 @@ package restful
 // RouterJSR311.SelectRoute: 404 exactly when no root expression matches or no route of the best service
 // matches the remainder; otherwise the detectRoute stage decides among exactly the matching routes of
 // the best-ranked matching service, best-ranked route first (C01 C02 C03 C18, under A-JSR).
+//@ lemma C03.jsr-route-irreflexive
+//@ props C03
+//@ forall x routeCandidate
+//@ ensures !jsrRouteLess(x, x)
+//@ trigger jsrRouteLess(x, x)
+
 //@ func (RouterJSR311).SelectRoute
 //@ props C01 C02 C03 C14 C18 C19
+//@ uses K/C03.jsr-route-irreflexive
+//@ opt opaque.K passes jsrRouteHit jsrRouteLess jsrRouteCand
+// C03: the selected route is not outranked by any other route of the chosen service that matches the remainder and
+// passes conditions, method, Content-Type and Accept
+//@ ensures K/best-route: err == nil ==> forall(0, len(selectedService.routes), func(k int) bool { return jsrRouteHit(selectedService.routes[k], jsrFinal(selectedService, httpRequest.URL.Path)) && passes(selectedService.routes[k], httpRequest, 3) ==> !jsrRouteLess(jsrRouteCand(*selectedRoute, jsrFinal(selectedService, httpRequest.URL.Path)), jsrRouteCand(selectedService.routes[k], jsrFinal(selectedService, httpRequest.URL.Path))) })
 //@ requires req: httpRequest != nil && httpRequest.URL != nil
 //@ requires services: forall(0, len(webServices), func(i int) bool { return jsrSvcOK(webServices[i]) && routesLockOf(webServices[i]) >= 0 && jsrRoutesOK(webServices[i]) })
 //@ ensures nomatch: forall(0, len(webServices), func(i int) bool { return !jsrSvcHit(webServices[i], httpRequest.URL.Path) }) ==> err != nil && selectedService == nil && selectedRoute == nil
